@@ -126,10 +126,18 @@ def cross_cases(rng, quick):
     return out
 
 
+def thin(ctx, items, keep=3):
+    """in an ambient-sweep child the budget is about a third (every family stays represented: every keep-th item)"""
+    if getattr(ctx, 'ambient', None) is None:
+        return items
+    off = ctx.rng.randrange(keep)
+    return [x for k, x in enumerate(items) if k % keep == off]
+
+
 def gen_cases(ctx):
     rng = ctx.rng
     out = []
-    contents = G.c03_contents(rng, ctx.quick)
+    contents = thin(ctx, G.c03_contents(rng, ctx.quick))
     for label, data in contents:
         n = len(data)
         alloweds = [rng.choice(G.ALLOWED_FAMILY)]
@@ -246,7 +254,10 @@ def correspondence(ctx):
     try:
         for (label, data), rep in zip(files, replies):
             ctx.evaluations += 1
-            impl = insp_impl.run_detect(data, tmp)
+            try:
+                impl = insp_impl.run_detect(data, tmp)
+            except Exception as e:
+                impl = 'ESCAPED:%s' % type(e).__name__
             pi, pm = impl.split(' ')[0].split('\t')[0], rep.split(' ')[0].split('\t')[0]
             ctx.count('corr/detect_file_format/' + pi)
             if pi != pm:
@@ -264,13 +275,14 @@ def inspect_prior(priors):
     decision is read) - whatever they leave behind must not influence the next stream"""
     F = G.fi()
     for data in priors:
-        w = F.InspectWrapper(G.io.BytesIO(data))
-        while w.read(4096):
-            pass
-        w.close()
+        # whatever these earlier streams do (raise included) is judged where THEY are the stream under test
         try:
+            w = F.InspectWrapper(G.io.BytesIO(data))
+            while w.read(4096):
+                pass
+            w.close()
             w.format
-        except F.ImageFormatError:
+        except Exception:
             pass
 
 
@@ -313,6 +325,9 @@ def oracle(allowed, data, sizes, prior=(), expected=None, names='str', u=None):
         t = G.wrap_trace(allowed, data, sizes, expected, names, u)
     except G.CallFormError as e:
         return str(e), {'decisions': [], 'final': (None, None), 'matches': {}, 'escaped': None}
+    except Exception as e:        # never take the harness down: an escaping exception is judged
+        return ('%s escaped while the wrapper was being constructed or read' % type(e).__name__,
+                {'decisions': [], 'final': (None, None), 'matches': {}, 'escaped': type(e).__name__})
     allowed_set = set(allowed) if allowed else set(G.ALLF)
     if set(t['names']) - allowed_set:
         return 'inspectors outside allowed_formats were created: %s%s' % (
@@ -555,7 +570,7 @@ def search(ctx, seeds, full=False):
                 if len(fresh) >= 8:
                     break
                 run(label, data, al, sizes, (), o['expected'], o['names'])
-            contents = G.c03_contents(rng, ctx.quick)
+            contents = thin(ctx, G.c03_contents(rng, ctx.quick))
             if full or not ctx.quick:
                 contents += G.c03_huge_contents(rng, True)
             for label, data in contents:
